@@ -111,6 +111,28 @@ def short(v, n=200):
     return r if len(r) <= n else r[:n] + "..."
 
 
+class CallTimeout(BaseException):
+    pass
+
+
+CALL_TIMEOUT_S = float(os.environ.get("VERIF_CALL_TIMEOUT", "5"))
+
+
+def _on_alarm(signum, frame):
+    raise CallTimeout()
+
+
+def call_with_timeout(fn, args, kwargs):
+    import signal
+    old = signal.signal(signal.SIGALRM, _on_alarm)
+    signal.setitimer(signal.ITIMER_REAL, CALL_TIMEOUT_S)
+    try:
+        return fn(*args, **kwargs)
+    finally:
+        signal.setitimer(signal.ITIMER_REAL, 0)
+        signal.signal(signal.SIGALRM, old)
+
+
 def check_call(fq, args, kwargs=None, contract=None, fn=None):
     """Run the real function on args under its contract.
 
@@ -146,7 +168,12 @@ def check_call(fq, args, kwargs=None, contract=None, fn=None):
     raised = None
     result = None
     try:
-        result = fn(*ba.args, **ba.kwargs)
+        result = call_with_timeout(fn, ba.args, ba.kwargs)
+    except CallTimeout:
+        return {"status": "fail", "observed": "no return within %gs" % CALL_TIMEOUT_S, "timeout": True,
+                "failures": [("termination", "the call did not return within %gs (non-termination?)" % CALL_TIMEOUT_S)]}
+    except RecursionError as e:
+        raised = e
     except Exception as e:  # noqa
         raised = e
     raises = c.get("raises") or {}
